@@ -38,6 +38,28 @@ def run(ctx):
     chk.trust("rand::Rng::random_range", "AtomicUsize/AtomicU64/AtomicBool", "std::sync::Mutex")
     chk.residue.append("the statistical claim itself (each position retained with probability capacity/n) and pushes racing a drain are NOT decided; C16.a is the necessary bound of Algorithm R")
 
+    # the generator behind the replacement draw differs from thread to thread and run to run: it is seeded from an entropy
+    # source, never from a constant (with a fixed seed every fresh thread keeps the very same stream positions)
+    seeders = []
+    for f in list(getattr(u, "raw_fns", None) or u.fns):
+        if "storage::reservoir" not in f.path or "::tests::" in f.path or not f.j.get("mir"):
+            continue
+        for c in f.body.calls():
+            r_ = c.resolved or c.callee or ""
+            if "SeedableRng" in r_ or ("rand" in r_ and strip_generics(r_).split("::")[-1] in ("seed_from_u64", "from_seed", "from_rng", "try_from_rng", "from_os_rng", "try_from_os_rng", "from_entropy")):
+                seeders.append((f, c, strip_generics(r_).split("::")[-1]))
+    if not seeders:
+        chk.unrecognised("C16.a", "<anchor> RNG seeding in storage::reservoir", "no SeedableRng constructor call found")
+    else:
+        ENTROPY = ("try_from_rng", "from_rng", "from_os_rng", "try_from_os_rng", "from_entropy")
+        bad = []
+        for f, c, n in seeders:
+            a = [strip_sym(Sym(f).operand(x)) for x in c.args]
+            const_seed = n in ("seed_from_u64", "from_seed") and all(not any(isinstance(y, tuple) and y and y[0] in ("arg", "call", "capture") for y in sym_walk(x)) for x in a)
+            src_ok = n in ENTROPY and any("OsRng" in repr(x) or "ThreadRng" in repr(x) or "thread_rng" in repr(x) or "SysRng" in repr(x) for x in a) or n in ("from_os_rng", "try_from_os_rng", "from_entropy")
+            if const_seed or not (src_ok or n in ("seed_from_u64", "from_seed") and not const_seed):
+                bad.append((f, c, n))
+        chk.ob("C16.a", "storage::reservoir [generator seeded from entropy]", not bad, f"{len(seeders)} generator construction(s), seeded from the OS / thread entropy source" if not bad else f"the generator is constructed with {bad[0][2]} from a fixed seed: every thread draws the identical sequence, so over independent trials on fresh threads the same stream positions are always the ones retained", bad[0][1].loc() if bad else seeders[0][1].loc(), nontrivial=False)
     RES = f"{R}::Reservoir"
     push = one_method(chk, "C16.a", u, RES, "push")
     if push:
